@@ -149,6 +149,11 @@ fn number_anon(stmts: &[Stmt], counter: &mut usize, out: &mut HashMap<*const Stm
                 }
             }
             Stmt::MacroDef { body, .. } => number_anon(body, counter, out),
+            // (an invocation gets its scope when it is parsed, like a block or a loop)
+            Stmt::MacroCall { .. } => {
+                *counter += 1;
+                out.insert(s as *const Stmt, *counter);
+            }
             Stmt::Segment { block: Some(b), .. } => number_anon(b, counter, out),
             Stmt::Test { body, .. } => number_anon(body, counter, out),
             _ => {}
@@ -680,9 +685,8 @@ impl<'a> Walker<'a> {
                         });
                         return;
                     }
-                    let k = self.macro_k;
                     self.macro_k += 1;
-                    let scope_name = format!("$macro_{}", k);
+                    let scope_name = format!("$scope_{}", self.anon[&(s as *const Stmt)]);
                     // arguments are evaluated in the new scope (which is empty: same as caller's)
                     self.scope.push(scope_name.clone());
                     for (p, a) in params.iter().zip(args.iter()) {
